@@ -3,6 +3,8 @@
 package checks
 
 import (
+	"github.com/tokenized/specification/dist/golang/actions"
+	"github.com/tokenized/specification/dist/golang/protocol"
 	"bytes"
 	"reflect"
 	"fmt"
@@ -70,12 +72,30 @@ func (w *World) SetupTxUniverse() {
 	add("M1", []wire.OutPoint{fund(1), fund(2)}, [][]byte{rel}, 7) // conflicts with I1 and R3
 	add("I2", []wire.OutPoint{fund(3)}, [][]byte{irr}, 8)
 	add("M2", []wire.OutPoint{fund(0), fund(2)}, [][]byte{rel}, 9) // conflicts with R1 (first input) and R3 (second input)
+	if w.cfg.Contracts {
+		// a contract formation (relevant through the contract subscription alone) and a transfer (not contract wide)
+		mk := func(a actions.Action) []byte {
+			sc, err := protocol.Serialize(a, false)
+			if err != nil {
+				panic(err)
+			}
+			return sc
+		}
+		add("K1", []wire.OutPoint{fund(50)}, [][]byte{irr, mk(&actions.ContractFormation{ContractName: "c"})}, 50)
+		add("K2", []wire.OutPoint{fund(51)}, [][]byte{mk(&actions.Transfer{}), irr}, 51)
+	}
 	for k := 0; k < w.cfg.Burst; k++ { // independent relevant txs for the back-pressure scenario
 		add(fmt.Sprintf("B%03d", k), []wire.OutPoint{fund(uint32(100 + k))}, [][]byte{rel}, uint32(100+k))
 	}
 }
 
 func (w *World) relevant(name string) bool {
+	if w.cfg.Contracts && name == "K1" {
+		return true
+	}
+	if len(w.cfg.Subscribe) == 0 && w.lateSub == nil {
+		return false // no push data subscribed
+	}
 	for _, o := range w.Txs[name].TxOut {
 		if bytes.Contains(o.LockingScript, subKey[:]) {
 			return true
